@@ -187,7 +187,13 @@ def mon_c03(run, variance):
                 if t not in started and t in sched:
                     ti = info.get(t, {"parents": [], "terminal": False})
                     done = [p for p in ti["parents"] if p in fin]
-                    ready = (bool(done) or not ti["parents"]) if ti["terminal"] else len(done) == len(ti["parents"])
+                    if ti["terminal"]:
+                        # a join is ready when the branch that was taken completed: some parent is done and every other
+                        # parent is done or cancelled
+                        gone = {x[2] for x in log[:i] if x[0] == "task" and x[1] == "cancel" and x[5] != "ERR"}
+                        ready = (bool(done) and all(p in fin or p in gone for p in ti["parents"])) or not ti["parents"]
+                    else:
+                        ready = len(done) == len(ti["parents"])
                     cancelled = any(x[0] == "task" and x[1] == "cancel" and x[2] == t and x[5] != "ERR" for x in log[:i])
                     if ready and not handler_pool_refused and not cancelled:
                         bad.append("task %s was ready at %s and its pool did not refuse it, yet it was not started" % (t, in_handler[2]))
